@@ -89,6 +89,17 @@ CLAIMED = {
         "assertions on.",
         "DESIGN.md section 4, C04",
     ),
+    "C05": (
+        "proptest random search: generated valid prefix invocation + `--` + adversarial tail; round-trip oracle (tail must come back byte-for-byte as positional values) and metamorphic non-interference (options as in the parse of the prefix alone); shrinking",
+        "For commands with an absorbing final positional (0../1.., string or OS-string, last / trailing_var_arg / delimiter with "
+        "dont_delimit_trailing_values, earlier positionals, options, flags, subcommands, inference) a valid prefix is spelled, followed "
+        "by `--` and a tail biased to --help/-h/--version, the command's own flags and =-forms, subcommand names, a second `--`, empty "
+        "and non-UTF-8 tokens: the parse must be Ok without subcommand, the positional values in index order must equal prefix "
+        "positionals ++ tail, a last(true) positional must hold exactly the tail, and every flag/option must look as without the tail.",
+        "The two documented cases where `--` is itself a value are excluded by construction; delimiter only together with "
+        "dont_delimit_trailing_values; hyphen-accepting positionals left to C01.",
+        "DESIGN.md section 4, C05",
+    ),
     "C08": (
         "proptest random search, metamorphic oracle: two/three independently drawn spellings of one generated invocation must give equal ArgMatches (and equal the model's expectation); constructed ambiguous prefixes must never resolve; shrinking",
         "One intended invocation is spelled twice with independent choices over the listed equivalences (= / separated / attached, "
